@@ -66,6 +66,111 @@ def eoe_rule(rep, f):
     rep.floor("C03.b", n, 12)
 
 
+COLLAPSE_SCHEMA = {
+    "SGXMLScanner::normalizeAttValue": "schema-only scanner: the attribute types it sees come from simple types whose whiteSpace facet is "
+                                       "collapse, which XML Schema applies to the value whatever its lexical origin — a referenced tab "
+                                       "is collapsed there by specification, so the reference status is not an input of this site",
+}
+COLLAPSE_SITES = [("IGXMLScanner::normalizeAttValue", "src/xercesc/internal/IGXMLScanner2.cpp"),
+                  ("IGXMLScanner::scanAttValue", "src/xercesc/internal/IGXMLScanner2.cpp"),
+                  ("DGXMLScanner::scanAttValue", "src/xercesc/internal/DGXMLScanner.cpp"),
+                  ("SGXMLScanner::normalizeAttValue", "src/xercesc/internal/SGXMLScanner.cpp"),
+                  ("DTDScanner::scanAttValue", "src/xercesc/validators/DTD/DTDScanner.cpp")]
+
+
+def collapse_rule(rep):
+    from ..engines import advance
+    rep.rule("C03.c", "attribute-value normalisation of tokenized types (XML 1.0 3.3.3: leading and trailing spaces discarded, runs "
+             "of spaces replaced by one): the two-state machine (InWhitespace / InContent, with the seen-a-token flag) in the five "
+             "places that implement it — IG/SG normalizeAttValue, IG/DG scanAttValue, DTDScanner::scanAttValue for defaults — folded "
+             "over every (state, flag, whitespace?, came-from-a-character-reference?, is #x20?) combination does exactly: in "
+             "InWhitespace a non-blank emits one separating space iff a token was seen, enters InContent and is kept; a blank is "
+             "dropped; in InContent a blank enters InWhitespace and is dropped, a non-blank is kept and sets the flag. A "
+             "character reference to anything but #x20 is never a blank. Unknown side conditions (standalone checks) fork and "
+             "must not change the outcome")
+    pat = "^(" + "|".join(re.escape(q) for q, _ in COLLAPSE_SITES) + ")$"
+    g = core.run_xa(sorted({os.path.join(core.REPO, fl) for _, fl in COLLAPSE_SITES}), st=pat, flat=False)
+
+    def find(n, out):
+        if not isinstance(n, list) or not n:
+            return
+        if isinstance(n[0], list):
+            for c in n:
+                find(c, out)
+            return
+        if n[0] == "if" and n[1][0] == "b" and n[1][1] == "==" and n[1][2][0] == "l" and n[1][3][0] == "e" and n[1][3][1].endswith("::InWhitespace"):
+            out.append(n)
+            return
+        for c in n[1:]:
+            if isinstance(c, list):
+                find(c, out)
+    total = 0
+    for q, fl in COLLAPSE_SITES:
+        nodes = []
+        for st in g.sts.get(q, []):
+            find(st["body"], nodes)
+        if len(nodes) != 1:
+            raise AnalysisBroken("%s: expected one `if (state == InWhitespace) ... else if (state == InContent)` machine, found %d" % (q, len(nodes)))
+        node = nodes[0]
+        S = node[1][2][1]
+        INWS = node[1][3][2]
+        enums = {x[1].split("::")[-1]: x[2] for x in sx_walk(node) if isinstance(x, list) and x and x[0] == "e" and "::In" in x[1]}
+        if set(enums) != {"InWhitespace", "InContent"}:
+            raise AnalysisBroken("%s: machine states are %s" % (q, sorted(enums)))
+        INC = enums["InContent"]
+        locs = {x[1] for x in sx_walk(node) if isinstance(x, list) and len(x) == 2 and x[0] == "l"}
+        flags = sorted(v for v in locs if v not in (S, "nextCh", "srcPtr") and v.lower().startswith("first"))
+        if len(flags) != 1:
+            raise AnalysisBroken("%s: cannot identify the seen-a-token flag among %s" % (q, sorted(locs)))
+        FLAG = flags[0]
+        has_esc = "escaped" in locs
+        # Every one of these places receives characters that came from character references (the 0xFFFF marker of
+        # the raw attribute buffer, or scanEntityRef's `escaped` out-parameter), so the reference status is always an
+        # input of the specification even when the machine does not consult it.
+        exempt = COLLAPSE_SCHEMA.get(q)
+
+        def hook(x, st, it):
+            nm = x[1].split("::")[-1]
+            if nm == "isWhitespace" and x[3] == [["l", "nextCh"]]:
+                return st.v["__ws"]
+            if nm == "append" and x[1].startswith("XMLBuffer::"):
+                st.events.append("SP" if x[3] == [["g", "chSpace"]] else "CH")
+                return advance.TOP
+            return NotImplemented
+        for st0 in (INWS, INC):
+            for first in (0, 1):
+                for ws, sp in ((0, 0), (1, 0), (1, 1)):
+                    for esc in (0, 1):
+                        blank = bool(sp) or (bool(ws) and not esc)
+                        if exempt and esc:
+                            continue
+                        env = {S: st0, FLAG: first, "__ws": ws, "nextCh": 0x20 if sp else (0x09 if ws else 0x41), "g:chSpace": 0x20}
+                        if has_esc:
+                            env["escaped"] = esc
+                        it = advance.Interp(call_hook=hook)
+                        outs = set()
+                        for kind, s2 in it.run(node, advance.State(env)):
+                            outs.add((kind, s2.v.get(S), s2.v.get(FLAG), tuple(s2.events)))
+                        if st0 == INWS:
+                            want = ("continue", INWS, first, ()) if blank else ("next", INC, 1, ("SP",) if first else ())
+                        else:
+                            want = ("continue", INWS, first, ()) if blank else ("next", INC, 1, ())
+                        total += 1
+                        key = "%s/%s/first=%d/%s%s" % (q, "InWhitespace" if st0 == INWS else "InContent", first,
+                                                        "space" if sp else ("tab-or-newline" if ws else "char"), "/charref" if esc else "")
+                        ok = outs == {want}
+
+                        def show(o):
+                            return "%s, state %s, flag %s, emits %s" % ({"next": "keeps the character", "continue": "drops the character"}.get(o[0], o[0]),
+                                                                        "InWhitespace" if o[1] == INWS else "InContent", o[2], list(o[3]))
+                        rep.ob("C03.c", key, ok, show(want) if ok else
+                               "%s: in %s (token seen: %d) a %s%s -> %s; normalisation requires: %s" % (
+                                   q, "InWhitespace" if st0 == INWS else "InContent", first, "character reference to " if esc else "",
+                                   "#x20" if sp else ("tab/newline" if ws else "non-blank character"),
+                                   " | ".join(show(o) for o in sorted(outs, key=str)), show(want)), fl)
+    rep.floor("C03.c", total, 60)
+
+
 def run(rep):
     f = core.library_facts()
     rep.units.update(os.path.relpath(t, core.REPO) for t in f.tus)
@@ -73,6 +178,7 @@ def run(rep):
     from ..engines import dispatch
     dispatch.run(rep, f, "C03")
     eoe_rule(rep, f)
+    collapse_rule(rep)
     rep.undecided += ["every value-level clause: line-end and attribute-value normalisation, entity expansion results, character references, "
                       "DTD defaulting, line numbers — not applicable to static analysis",
                       "that the forwarded arguments are the right ones"]
